@@ -36,13 +36,14 @@ func unbondProfile() Profile {
 	p.RepeatPct = 40
 	p.Weights[GPackBucket] = 7
 	p.Weights[KReimport] = 3
+	p.Weights[GDeletePending] = 3
 	return p
 }
 
 func slashProfile() Profile {
 	p := baseProfile()
 	p.Name = "slash"
-	p.Weights = map[string]int{KDelegate: 22, KUndelegate: 12, KRedelegate: 18, KClaim: 3, KBlock: 14, KSlashHook: 12, KSlash: 10, KUnbTime: 2, KJail: 1, KUnjail: 1, KDelete: 1, KCreate: 1, GRedelThenExit: 5, GMultiRedelSlash: 3, GPackBucket: 4, GMultiUnbondSlash: 3, KReimport: 3}
+	p.Weights = map[string]int{KDelegate: 22, KUndelegate: 12, KRedelegate: 18, KClaim: 3, KBlock: 14, KSlashHook: 12, KSlash: 10, KUnbTime: 2, KJail: 1, KUnjail: 1, KDelete: 1, KCreate: 1, GRedelThenExit: 5, GMultiRedelSlash: 3, GPackBucket: 4, GMultiUnbondSlash: 3, KReimport: 3, GDeletePending: 2}
 	p.FocusDelPct = 40
 	return p
 }
